@@ -28,8 +28,8 @@ ASSUMPTIONS = [
     "for mixed-type sequences only the laws are checked, not a particular inferred dtype",
 ]
 BOUND = {
-    "quick": "sequences of length 0..3 over 27 scalars; explicit dtypes for homogeneous sequences; equal() relation over all pairs of vectors of length <= 2 built from 14 scalars",
-    "thorough": "sequences of length 0..4 over 27 scalars; equal() relation over all pairs of vectors of length <= 2 built from all 27 scalars (vectors reported equal must also hold == values position by position)",
+    "quick": "sequences of length 0..3 over 28 scalars; explicit dtypes for homogeneous sequences; equal() relation over all pairs of vectors of length <= 2 built from 14 scalars",
+    "thorough": "sequences of length 0..4 over 28 scalars; equal() relation over all pairs of vectors of length <= 2 built from all 28 scalars (vectors reported equal must also hold == values position by position)",
 }
 TIME_CAP = {"quick": 240, "thorough": 3000}
 
@@ -79,6 +79,7 @@ SCALARS = {
     "bytes": b"x",
     "np.int64": np.int64(1),
     "np.float64": np.float64(1.5),
+    "np.float32": np.float32(1.5),   # not an instance of float (np.float64 is)
     "np.bool": np.bool_(True),
     "np.str": np.str_("a"),
     "np.dt64": np.datetime64("2020-02-29"),
@@ -93,7 +94,7 @@ MISSING = {"None", "nan", "npnan"}
 FAMILY = {
     "True": "bool", "1": "int", "big": "int", "i24": "int", "1.5": "float", "complex": "complex", "a": "str", "empty": "str", "long1": "str", "long2": "str",
     "date": "date", "datetime": "datetime", "timedelta": "timedelta", "bytes": "bytes",
-    "np.int64": "np.int", "np.float64": "np.float", "np.bool": "np.bool", "np.str": "np.str",
+    "np.int64": "np.int", "np.float64": "np.float", "np.float32": "np.float32", "np.bool": "np.bool", "np.str": "np.str",
     "np.dt64": "np.dt64", "np.NaT": "np.dt64", "np.td64": "np.td64", "dict": "object", "inst": "object", "aloof": "object",
 }
 DATEISH = {"date", "datetime", "np.dt64"}
@@ -326,25 +327,35 @@ def laws(v, names, seq, rec, one, homog):
             return None
         if v.is_datetime() and np.datetime_data(v.dtype)[0] == "generic":
             return (str(v.dtype), tuple(fl))  # a unit-less datetime vector (only NaT scalars given) can hold nothing but NaT
-        r = replacement_for(v)
-        rn = v.replace_na(r)
-        rl = rn.tolist() if not rn.is_object() else list(np.asarray(rn))
-        for i in range(n):
-            if str(rn.dtype) != str(v.dtype):
-                rec.violation("replace_na", "dtype-kept", one, f"replace_na({r!r}) turned {v.dtype} into {rn.dtype}")
-                return None
-            if fl[i]:
-                got = np.asarray(rn)[i]
-                if isinstance(got, np.datetime64) and isinstance(r, datetime.date):
-                    got = got.astype("datetime64[D]").item()
-                if isinstance(got, np.generic) and not isinstance(got, (np.datetime64, np.timedelta64)):
-                    got = got.item()
-                if not (got == r):
-                    rec.violation("replace_na", "replaced", one, f"position {i} holds {got!r} after replace_na({r!r})")
+        reps = [replacement_for(v)]
+        # a replacement that is falsy (0, 0.0, False) is a replacement like any other
+        if v.is_float():
+            reps.append(0.0)
+        elif v.is_integer() and not v.is_timedelta():
+            reps.append(0)
+        elif v.is_boolean():
+            reps.append(False)
+        elif v.is_object():
+            reps += [0, False]
+        for r in reps:
+            rn = v.replace_na(r)
+            rl = rn.tolist() if not rn.is_object() else list(np.asarray(rn))
+            for i in range(n):
+                if str(rn.dtype) != str(v.dtype):
+                    rec.violation("replace_na", "dtype-kept", one, f"replace_na({r!r}) turned {v.dtype} into {rn.dtype}")
                     return None
-            elif not V.same_value(rn.tolist()[i], tl[i]):
-                rec.violation("replace_na", "others-kept", one, f"position {i} changed: {rn!r} from {v!r}")
-                return None
+                if fl[i]:
+                    got = np.asarray(rn)[i]
+                    if isinstance(got, np.datetime64) and isinstance(r, datetime.date):
+                        got = got.astype("datetime64[D]").item()
+                    if isinstance(got, np.generic) and not isinstance(got, (np.datetime64, np.timedelta64)):
+                        got = got.item()
+                    if not (got == r):
+                        rec.violation("replace_na", "replaced", one, f"position {i} holds {got!r} after replace_na({r!r})")
+                        return None
+                elif not V.same_value(rn.tolist()[i], tl[i]):
+                    rec.violation("replace_na", "others-kept", one, f"position {i} changed: {rn!r} from {v!r}")
+                    return None
         if V.col_key(v)[1] != tuple(V.tok(x) for x in V.cells(v)):
             pass
     except Exception as e:
